@@ -39,6 +39,11 @@ func (vfs *OrefaFS) absPath(path string) string {
 	return absPath
 }
 
+// isRoot returns true if absPath, as returned by absPath, is the key of a root directory.
+func (vfs *OrefaFS) isRoot(absPath string) bool {
+	return len(absPath) == avfs.VolumeNameLen(vfs, absPath)
+}
+
 // splitAbs is avfs.SplitAbs for the keys of the nodes map :
 // the root directory has no parent directory and its name is the path separator.
 func (vfs *OrefaFS) splitAbs(absPath string) (dir, file string) {
